@@ -352,6 +352,17 @@ impl IgnoreFilter {
 				return Match::None;
 			};
 
+			// The trie finds the longest key that is a *string* prefix of the path, which may be a
+			// sibling directory (`/a/test` for `/a/tests/x`): such a node does not apply to this path,
+			// so continue from its parent.
+			if !path.starts_with(Path::new(trie_node.key().unwrap())) {
+				if let Some(trie_parent) = Path::new(trie_node.key().unwrap()).parent() {
+					search_path = trie_parent;
+					continue;
+				}
+				return Match::None;
+			}
+
 			// Unwrap will always succeed because every node has an entry.
 			let ignores = trie_node.value().unwrap();
 
